@@ -408,6 +408,16 @@ func nfcTable(doc []byte) string {
 
 var keySink func(string)
 
+// guard runs an observation of the implementation; a Go panic becomes the observable "PANIC"
+func guard(f func() string) (res string) {
+	defer func() {
+		if r := recover(); r != nil {
+			res = "PANIC"
+		}
+	}()
+	return f()
+}
+
 func sameOr(a, b string) string {
 	if a == b {
 		return "same"
@@ -422,22 +432,23 @@ type emitter struct {
 
 func (e *emitter) dec(doc []byte, class string) {
 	valid := stdjson.Valid(doc)
-	cc, v := cueCanon(doc)
+	var v cue.Value
+	cc := guard(func() string { var c string; c, v = cueCanon(doc); return c })
 	std := "INVALID"
 	if valid {
 		std = stdCanon(doc)
 	}
-	dc := sameOr(cc, decoderCanon(doc))
+	dc := sameOr(cc, guard(func() string { return decoderCanon(doc) }))
 	bl := "-"
 	if len(doc) < 4000 {
 		// the builtin keeps every label a string label (NFC-normalised), json.Extract turns
 		// identifier-like labels into identifiers (not normalised): compare modulo NFC of names
 		bc := "REJECT"
-		if cc != "REJECT" {
-			bc = walkCanonNFC(v)
+		if cc != "REJECT" && cc != "PANIC" {
+			bc = guard(func() string { return walkCanonNFC(v) })
 		}
 		nfcKeys = true
-		bl = sameOr(bc, builtinCanon(doc))
+		bl = sameOr(bc, guard(func() string { return builtinCanon(doc) }))
 		nfcKeys = false
 	}
 	nt := "-"
@@ -446,14 +457,15 @@ func (e *emitter) dec(doc []byte, class string) {
 	}
 	m := "-"
 	var mb []byte
-	if cc != "REJECT" {
-		b, err := v.MarshalJSON()
-		if err == nil {
-			mb = b
-			m = common.Hex(string(b))
-		} else {
-			m = "ERR"
-		}
+	if cc != "REJECT" && cc != "PANIC" {
+		m = guard(func() string {
+			b, err := v.MarshalJSON()
+			if err == nil {
+				mb = b
+				return common.Hex(string(b))
+			}
+			return "ERR"
+		})
 	}
 	vb := 0
 	if valid {
@@ -467,16 +479,20 @@ func (e *emitter) dec(doc []byte, class string) {
 }
 
 func (e *emitter) enc(mb []byte, class, truth string, v cue.Value) {
-	w := walkCanon(v)
+	w := guard(func() string { return walkCanon(v) })
 	std := stdCanon(mb)
-	rt, _ := cueCanon(mb)
+	rt := guard(func() string { c, _ := cueCanon(mb); return c })
 	bl := "-"
 	// a NaN number (exponent text beyond int32, known finding) makes FillPath panic
 	// in adt.insertValueConjunct: do not feed it to the builtin
 	if len(mb) < 4000 && !strings.Contains(w, "#N") {
-		if s, ok := builtinMarshal(v); ok {
-			bl = sameOr(string(mb), s)
-		} else {
+		bl = guard(func() string {
+			if s, ok := builtinMarshal(v); ok {
+				return sameOr(string(mb), s)
+			}
+			return "diff"
+		})
+		if bl == "PANIC" {
 			bl = "diff"
 		}
 	}
@@ -1328,7 +1344,11 @@ func main() {
 		g := &valGen{r: r}
 		e, truth := g.value(1 + r.Intn(5))
 		v := ctx.BuildExpr(e)
-		mb, err := v.MarshalJSON()
+		var mb []byte
+		var err error
+		if guard(func() string { mb, err = v.MarshalJSON(); return "" }) == "PANIC" {
+			err = fmt.Errorf("panic")
+		}
 		if err != nil {
 			out.Emit(fmt.Sprintf("ENC - value %s", truth), "walk=REJECT std=REJECT rt=REJECT blt=-")
 			continue
